@@ -528,7 +528,13 @@ func (r *Runner) Subscribe(paused bool) *Sub {
 	s.Subscribed = true
 	r.nsubscribed++
 	go s.run(paused)
-	r.awaitSubCount()
+	if r.Cfg.Buf > 0 {
+		// the request may still sit in the buffered subCh; with BufferSize = 0
+		// Subscribe returns at the hand-off to the loop, which registers the
+		// channel before it looks at any later request - nothing to wait for, and
+		// waiting would hide a broker that returns from Subscribe too early
+		r.awaitSubCount()
+	}
 	r.Ctl = append(r.Ctl, CtlEv{Op: "sub", I: s.Idx})
 	return s
 }
